@@ -268,6 +268,7 @@ def c13b(prog, rep):
         rep.analysed["dispatch_map_bytes_with_handler"] = len(covered)
         rep.floor(R, "dispatch map rows", len(rows), 27)
     blank_definition(prog, rep, R)
+    blank_scanner_stops_only_at_non_blank(prog, rep, R)
     # dispatcher stores/uses only the two sibling routines
     det = prog.body(LX + "find_identifier_end_x86_64::detect")
     if rep.check(det is not None, R, "anchor:detect", "detect not found"):
@@ -279,6 +280,62 @@ def c13b(prog, rep):
                   instance={"candidates": sorted(short(f) for f in fns)})
         fd = [c for c in det.calls() if "is_feature_detected" in (c.callee or "") or "detect" in (c.callee or "")]
         rep.check(len(fd) >= 1, R, "avx2-only-if-detected", "detect no longer asks for the avx2 CPU feature")
+
+
+def blank_scanner_stops_only_at_non_blank(prog, rep, R):
+    """Maximal munch for blanks: count_leading_whitespace returns only at a position where the next character is evidently not blank.
+    Every path to its return (one iteration of each scanning loop, and the loop-free paths) is classified: the value hands the rest
+    to the complete per-character scanner (count_unicode_whitespace, whose predicate is checked against the blank set separately);
+    or the input is exhausted; or the byte / character tested last is, by the comparisons on the path, outside {<= U+0020, U+3000}
+    (for bytes: also not 0xE3, the lead byte of U+3000).  A scanner that takes the two kinds of blank in two consecutive runs stops
+    in front of a blank that follows a run of the second kind: that blank becomes a token of its own and is emitted as it is."""
+    from table import eval_desc, Unknown
+    b = prog.body(LX + "count_leading_whitespace")
+    if not rep.check(b is not None, R, "anchor:count_leading_whitespace", "count_leading_whitespace not found"):
+        return
+    headers = set(b.loops())
+    tables = []
+    try:
+        tables.append(("entry", Table(prog, b, start=0, stop=headers, max_paths=2000)))
+        for h in sorted(headers):
+            tables.append(("loop@bb%d" % h, Table(prog, b, start=h, stop=headers, max_paths=2000)))
+    except TooComplex as e:
+        rep.fail(R, "blank-scanner:table", "count_leading_whitespace can no longer be enumerated path by path: %s" % e)
+        return
+    bad, nexits = [], 0
+    for where, tb in tables:
+        for cons, res in tb.rows:
+            if res.kind == "agg" and res.a and res.a[0] == "state":
+                continue                    # goes on scanning (next iteration / next loop)
+            nexits += 1
+            r = render(res)
+            if "count_unicode_whitespace(" in r:
+                continue
+            if any(c[0] == "is" and c[2] == "None" and str(c[1]).startswith("next(") for c in cons):
+                continue
+            if any(c[0] == "cond" and c[2] != 0 and re.match(r"^is_empty\(", str(c[1])) for c in cons):
+                continue
+            cmps = {}
+            for c in cons:
+                m = re.match(r"^(Gt|Ge|Lt|Le|Eq|Ne)\((.+),(?:char:)?(\d+)\)$", str(c[1])) if c[0] == "cond" else None
+                if m:
+                    cmps.setdefault(m.group(2), []).append((str(c[1]), c[2]))
+            verdict = None
+            for x, cs in cmps.items():
+                isbyte = "as_bytes(" in x or "bytes(" in x
+                cand = list(range(0, 256)) + ([] if isbyte else [0x2000, 0x2FFF, 0x3000, 0x3001, 0xFEFF, 0x1F600])
+                try:
+                    sat = [v for v in cand if all(bool(eval_desc(d.replace(x, "X"), {"X": v})) == (t != 0) for d, t in cs)]
+                except Unknown:
+                    continue
+                blanks = [v for v in sat if v <= 0x20 or v == 0x3000 or (isbyte and v == 0xE3)]
+                verdict = not blanks if verdict is None else (verdict or not blanks)
+            if verdict:
+                continue
+            bad.append("%s: returns %s under %s" % (where, r[:60], [str(c[1])[:70] + ("" if c[2] != 0 else " = false") for c in cons if c[0] == "cond"] or [str(c[1:])[:70] for c in cons]))
+    rep.check(not bad and nexits >= 1, R, "blank-scanner-stops-only-at-non-blank",
+              "count_leading_whitespace can return at a position where the next character may still be a blank (neither the rest is handed to the complete scanner, nor is the input exhausted, "
+              "nor do the comparisons on the path exclude {<= U+0020, U+3000}): %s" % bad[:2], where="%s:%d" % (b.file, b.line), instance={"exits": nexits, "loops": len(headers)})
 
 
 def blank_definition(prog, rep, R):
